@@ -61,9 +61,10 @@ def twin_epochs_case():
     return {"arch": arch}
 
 
-def big_account_case(nblocks=6, epochs=(7,)):
+def big_account_case(nblocks=6, epochs=(7,), mod=5):
     """epochs in which account 1 is mentioned by more transactions than the index path's first per-account query (100):
-    20 per block (sub-ranges of 5 blocks hold exactly 100, of 10 blocks exactly 200, 11 blocks 220: two enlargements of the query)"""
+    mod 5: 20 per block (sub-ranges of 5 blocks hold exactly 100, of 10 blocks exactly 200, 11 blocks 220: two enlargements of the
+    query); mod 4: 18 per block, so the 100th / 200th newest match lies inside a block (a limit boundary inside a slot)"""
     arch, sig = [], 0
     for ep in epochs:
         blocks = []
@@ -73,7 +74,7 @@ def big_account_case(nblocks=6, epochs=(7,)):
             txs = []
             for k in range(25):
                 sig += 1
-                txs.append({"sig": sig, "accts": [1] if k % 5 else [2], "loaded": [], "vote": False, "failed": False, "nometa": False,
+                txs.append({"sig": sig, "accts": [1] if k % mod else [2], "loaded": [], "vote": False, "failed": False, "nometa": False,
                             "dframes": 1, "mframes": 1, "pad": 0, "mpad": 0})
             blocks.append({"slot": slot, "parent": parent, "blocktime": 1600000000 + slot % 100000, "height": slot + 7, "entries": [{"txs": txs}], "rframes": 0})
             parent, slot = slot, slot + 2
@@ -100,6 +101,8 @@ def run(ctx):
         cases.append(big_account_case())
         cases.append(big_account_case(11))
         cases.append(big_account_case(3, (7, 8)))
+        cases.append(big_account_case(12, (7,), 4))
+        cases.append(big_account_case(4, (7, 8), 4))
         cases.append(twin_epochs_case())
     casep = ctx.write_ndjson("cases.ndjson", cases)
     ov = ctx.overlay(main_files=["helpers_test.go", "arch_test.go", "c19_test.go"], replace=gsfa_fast_overlay(ctx))
